@@ -263,6 +263,58 @@ def g1_tag_positions(F, r):
         r.ok("get_single: set_place_tags", "tags stored in the job dimensions")
 
 
+def c1_load_and_fixed_cost(F, r):
+    """reported load after an activity = load before - static and dynamic delivery + static and dynamic pickup; the vehicle's fixed cost enters the tour cost exactly once"""
+    cl = F.find1("solution_writer::calculate_load")
+    fn = F.fns[cl]
+    seen = {}
+    bad = False
+    for bi, t in mir.calls(fn):
+        if not t["callee"].startswith("core::ops::arith::") or len(t["args"]) != 2:
+            continue
+        op = t["callee"].split("::")[-1]
+        e = mir.expr(fn, t["args"][1])
+        part = [x for x in e[1] if x in (".delivery", ".pickup")]
+        comp = [x for x in e[1] if x in (".0", ".1")]
+        if len(part) != 1 or len(comp) != 1:
+            r.ok("calculate_load", "not decided: the demand parts are not read as demand.<delivery|pickup>.<0|1>")
+            return
+        want = "sub" if part[0] == ".delivery" else "add"
+        seen[(part[0], comp[0])] = op
+        if op != want:
+            bad = True
+            r.fail(f"calculate_load: {part[0][1:]}{comp[0]}", f"the {part[0][1:]} part of the demand is {'added to' if op == 'add' else 'subtracted from'} the load: deliveries leave the vehicle, pickups enter it", F.loc(cl, t["ln"]))
+    need = {(".delivery", ".0"), (".delivery", ".1"), (".pickup", ".0"), (".pickup", ".1")}
+    if set(seen) != need:
+        r.fail("calculate_load: parts", f"only {sorted(seen)} of static/dynamic delivery and pickup change the reported load", F.loc(cl))
+    elif not bad:
+        r.ok("calculate_load", "load - delivery.0 - delivery.1 + pickup.0 + pickup.1")
+    ct = F.find1("solution_writer::create_tour")
+    fams = F.family(ct)
+    adds = []
+    for g in fams:
+        gfn = F.fns[g]
+        for bi, si, st in mir.stmts(gfn):
+            if st["r"]["k"] == "bin" and st["r"]["op"] == "Add":
+                for o in st["r"]["o"]:
+                    e = mir.expr(gfn, o)
+                    if e[1][-2:] == (".costs", ".fixed"):
+                        adds.append((g, bi, st))
+    if len(adds) != 1:
+        r.fail("create_tour: fixed cost", f"the vehicle's fixed cost is added {len(adds)} times to the tour statistic (expected exactly once)", F.loc(ct))
+        return
+    g, bi, st = adds[0]
+    gfn = F.fns[g]
+    pf = mir.proj_fields(st["d"])
+    in_loop = any(bi in body for _, body in mir.natural_loops(gfn).items()) if isinstance(mir.natural_loops(gfn), dict) else any(bi in l for l in mir.natural_loops(gfn))
+    if g != ct or in_loop:
+        r.fail("create_tour: fixed cost", "the fixed cost is added inside a per-leg / per-interval step: tours with reloads or several stops are charged the fixed cost repeatedly", F.loc(g, st.get("ln")))
+    elif not (pf and pf[-1][1] == "cost"):
+        r.fail("create_tour: fixed cost", "the fixed cost is not added to the statistic's cost field", F.loc(g, st.get("ln")))
+    else:
+        r.ok("create_tour: fixed cost", "statistic.cost += vehicle.costs.fixed, once, after all legs")
+
+
 def run(ctx):
     ctx.explanation = (
         "Structure of the accounting formulas: the pragmatic Statistic sum is field-wise over every scalar field of Statistic and Timing and the overall "
@@ -284,4 +336,5 @@ def run(ctx):
         ctx.run("C05-R1", "schedule recurrence of the forward pass (arrival / departure / carry / total duration)", c05.r1_schedule_recurrence, floor=1)
     except (ImportError, AttributeError):
         pass
+    ctx.run("C03-C1", "reported load change signs (deliveries out, pickups in); fixed cost charged exactly once per tour", c1_load_and_fixed_cost, floor=2)
     ctx.run("C03-U1", "cost coefficients multiply quantities of their own unit", u1_units, floor=4)
